@@ -689,94 +689,7 @@ pub fn check_state(cfg: &Cfg, sres: &StateRes, en: &BTreeSet<&'static str>, c: &
             }
         }
     }
-    let resident_val = |k: u8| -> Option<VV> {
-        // lookup order of the composite caches does not matter when partitions are disjoint (C01)
-        for li in resident_lists(cfg.kind) {
-            if let Some(v) = val(&snap.lists[*li], k) {
-                return Some(v);
-            }
-        }
-        None
-    };
-    for (op, r) in &sres.obs {
-        bump(c, "observer_calls");
-        if let Ret::Panic(m) = r {
-            out.push(Finding::new("C05", "no_panic", format!("{:?}:{}", cfg.kind, crate::panics::location_of(m)), format!("observer {:?} panicked: {} in state {}", op, m, show(cfg, snap))));
-            continue;
-        }
-        let expect: Option<Ret> = match *op {
-            Op::Peek(k) | Op::PeekMut(k) => Some(Ret::V(resident_val(k))),
-            Op::Contains(k) => Some(Ret::Bool(resident_val(k).is_some())),
-            _ => None,
-        };
-        if let Some(e) = expect {
-            if *r != e {
-                out.push(Finding::new("C02", "lookup_agrees_with_contents", op_name(op), format!("{:?} returned {:?}, expected {:?} in state {}", op, r, e, show(cfg, snap))));
-            }
-        }
-        // C06 / C14 observers of the plain LRU
-        if cfg.kind == Kind::Raw {
-            let l = &snap.lists[0];
-            let e6: Option<Ret> = match *op {
-                Op::PeekLru | Op::PeekLruMut => Some(Ret::KV(l.last().copied())),
-                Op::PeekMru | Op::PeekMruMut | Op::GetMru | Op::GetMruMut => Some(Ret::KV(l.first().copied())),
-                _ => None,
-            };
-            if let Some(e) = e6 {
-                if *r != e {
-                    out.push(Finding::new("C06", "ends_named_correctly", format!("{:?}", op), format!("{:?} returned {:?}, expected {:?} in state {}", op, r, e, show(cfg, snap))));
-                }
-            }
-        }
-        if *op == Op::Iters {
-            if let Ret::Many(fams) = r {
-                let per_list = if cfg.kind == Kind::Raw { 12 } else { 10 };
-                for (i, fr) in fams.iter().enumerate() {
-                    let li = i / per_list;
-                    let fi = i % per_list;
-                    let base = &snap.lists[li];
-                    let lru = matches!(fi, 1 | 3 | 5 | 7 | 9);
-                    let mut e: L = base.clone();
-                    if lru {
-                        e.reverse();
-                    }
-                    let e: L = match fi {
-                        4 | 5 => e.iter().map(|x| (x.0, (0, 0))).collect(),
-                        6..=9 => e.iter().map(|x| (255, x.1)).collect(),
-                        _ => e,
-                    };
-                    if *fr != Ret::Ents(e.clone()) {
-                        let prop = if cfg.kind == Kind::Raw && fi < 2 { "C06" } else { "C14" };
-                        out.push(Finding::new(prop, "iteration_order", format!("{}#{}", names[li], fi), format!("iterator family #{} of {} yields {:?}, expected {:?}", fi, names[li], fr, e)));
-                    }
-                }
-            }
-        }
-        if *op == Op::ListLens || *op == Op::SegPeeks {
-            check_lens(cfg, snap, op, r, &mut out);
-        }
-    }
-
-    // ---- C13: observers leave the abstract state (lists, scalars, estimator) untouched
-    if !sres.obs.is_empty() {
-        match &sres.snap_after_obs {
-            Some(after) => {
-                if after.canon() != snap.canon() {
-                    // find the culprit class for the discriminator
-                    out.push(Finding::new(
-                        "C13",
-                        "observers_do_not_change_state",
-                        format!("{:?}", cfg.kind),
-                        format!("after the read-only calls the state is {} but it was {}", show(cfg, after), show(cfg, snap)),
-                    ));
-                }
-            }
-            None => {}
-        }
-        for s in sres.audit_after_obs.dangling.iter().chain(sres.audit_after_obs.structural.iter()) {
-            out.push(Finding::new("C03", "audit_after_observers", format!("{:?}", cfg.kind), s.clone()));
-        }
-    }
+    check_observations(cfg, snap, &sres.obs, sres.snap_after_obs.as_ref(), &sres.audit_after_obs, "", c, &mut out);
 
     // ---- C14
     for p in &sres.iter_problems {
@@ -853,6 +766,107 @@ fn check_lens(cfg: &Cfg, snap: &Snap, op: &Op, r: &Ret, out: &mut Vec<Finding>) 
             }
         }
         _ => {}
+    }
+}
+
+/// clauses about what the read-only calls return and do, for one concrete object whose snapshot is `snap`
+#[allow(clippy::too_many_arguments)]
+fn check_observations(cfg: &Cfg, snap: &Snap, obs: &[(Op, Ret)], after: Option<&Snap>, audit_after: &crate::driver::AuditRes, where_: &str, c: &mut Counters, out: &mut Vec<Finding>) {
+    let names = list_names(cfg.kind);
+    let first_new = out.len();
+    let resident_val = |k: u8| -> Option<VV> {
+        // lookup order of the composite caches does not matter when partitions are disjoint (C01)
+        for li in resident_lists(cfg.kind) {
+            if let Some(v) = val(&snap.lists[*li], k) {
+                return Some(v);
+            }
+        }
+        None
+    };
+    for (op, r) in obs {
+        bump(c, "observer_calls");
+        if let Ret::Panic(m) = r {
+            out.push(Finding::new("C05", "no_panic", format!("{:?}:{}", cfg.kind, crate::panics::location_of(m)), format!("observer {:?} panicked: {} in state {}", op, m, show(cfg, snap))));
+            continue;
+        }
+        let expect: Option<Ret> = match *op {
+            Op::Peek(k) | Op::PeekMut(k) => Some(Ret::V(resident_val(k))),
+            Op::Contains(k) => Some(Ret::Bool(resident_val(k).is_some())),
+            _ => None,
+        };
+        if let Some(e) = expect {
+            if *r != e {
+                out.push(Finding::new("C02", "lookup_agrees_with_contents", op_name(op), format!("{:?} returned {:?}, expected {:?} in state {}", op, r, e, show(cfg, snap))));
+            }
+        }
+        // C06 / C14 observers of the plain LRU
+        if cfg.kind == Kind::Raw {
+            let l = &snap.lists[0];
+            let e6: Option<Ret> = match *op {
+                Op::PeekLru | Op::PeekLruMut => Some(Ret::KV(l.last().copied())),
+                Op::PeekMru | Op::PeekMruMut | Op::GetMru | Op::GetMruMut => Some(Ret::KV(l.first().copied())),
+                _ => None,
+            };
+            if let Some(e) = e6 {
+                if *r != e {
+                    out.push(Finding::new("C06", "ends_named_correctly", format!("{:?}", op), format!("{:?} returned {:?}, expected {:?} in state {}", op, r, e, show(cfg, snap))));
+                }
+            }
+        }
+        if *op == Op::Iters {
+            if let Ret::Many(fams) = r {
+                let per_list = if cfg.kind == Kind::Raw { 12 } else { 10 };
+                for (i, fr) in fams.iter().enumerate() {
+                    let li = i / per_list;
+                    let fi = i % per_list;
+                    let base = &snap.lists[li];
+                    let lru = matches!(fi, 1 | 3 | 5 | 7 | 9);
+                    let mut e: L = base.clone();
+                    if lru {
+                        e.reverse();
+                    }
+                    let e: L = match fi {
+                        4 | 5 => e.iter().map(|x| (x.0, (0, 0))).collect(),
+                        6..=9 => e.iter().map(|x| (255, x.1)).collect(),
+                        _ => e,
+                    };
+                    if *fr != Ret::Ents(e.clone()) {
+                        let prop = if cfg.kind == Kind::Raw && fi < 2 { "C06" } else { "C14" };
+                        out.push(Finding::new(prop, "iteration_order", format!("{}#{}", names[li], fi), format!("iterator family #{} of {} yields {:?}, expected {:?}", fi, names[li], fr, e)));
+                    }
+                }
+            }
+        }
+        if *op == Op::ListLens || *op == Op::SegPeeks {
+            check_lens(cfg, snap, op, r, out);
+        }
+    }
+
+    // ---- C13: observers leave the abstract state (lists, scalars, estimator) untouched
+    if !obs.is_empty() {
+        match after {
+            Some(after) => {
+                if after.canon() != snap.canon() {
+                    // find the culprit class for the discriminator
+                    out.push(Finding::new(
+                        "C13",
+                        "observers_do_not_change_state",
+                        format!("{:?}", cfg.kind),
+                        format!("after the read-only calls the state is {} but it was {}", show(cfg, after), show(cfg, snap)),
+                    ));
+                }
+            }
+            None => {}
+        }
+        for s in audit_after.dangling.iter().chain(audit_after.structural.iter()) {
+            out.push(Finding::new("C03", "audit_after_observers", format!("{:?}", cfg.kind), s.clone()));
+        }
+    }
+
+    if !where_.is_empty() {
+        for f in &mut out[first_new..] {
+            f.detail = format!("{} {}", f.detail, where_);
+        }
     }
 }
 
@@ -937,6 +951,16 @@ pub fn check_trans(cfg: &Cfg, pre: &Snap, probe: &Probe, op: Op, t: &TransRes, e
         None => return out,
     };
     bump(c, &format!("ret.{}", ret_class(ret)));
+    if !t.post_obs.is_empty() {
+        let none = crate::driver::AuditRes::default();
+        check_observations(cfg, post, &t.post_obs, t.post_after_obs.as_ref(), &none, &format!("(in the object reached by {:?} on {})", op, show(cfg, pre)), c, &mut out);
+        // len() == number of keys for which contains() is true, on this concrete object
+        let n_contains = t.post_obs.iter().filter(|(o, r)| matches!(o, Op::Contains(_)) && *r == Ret::Bool(true)).count() as u64;
+        let lenr = t.post_obs.iter().find(|(o, _)| *o == Op::Len).map(|(_, r)| r.clone());
+        if lenr.is_some() && lenr != Some(Ret::Num(n_contains)) && post.resident(cfg.kind).iter().all(|e| e.0 < cfg.keys) {
+            out.push(Finding::new("C01", "len_equals_contains_count", format!("{:?}", cfg.kind), format!("len() returned {:?} but contains() is true for {} keys: {}", lenr, n_contains, ctx(Some(post)))));
+        }
+    }
     for p in &t.iter_problems {
         out.push(Finding::new("C14", "iterator_words_after_transition", p.split(':').next().unwrap_or("").to_string(), format!("{} — in the object reached by {}", p, ctx(Some(post)))));
     }
